@@ -4,5 +4,6 @@ pub mod gen;
 pub mod keys;
 pub mod pkesk;
 pub mod sigdigest;
+pub mod sigparse;
 pub mod text;
 pub mod wire;
